@@ -97,7 +97,7 @@ def gen_case(seed, tier):
             # opcode-granular tracing crashes CPython 3.12.1 (segfault in
             # instruction instrumentation with several threads): not used
             'opcode': 'store' if core.stream(seed, 'c18op').random() < float(
-                os.environ.get('VERIF_C18_STOREP', '0')) else False,
+                os.environ.get('VERIF_C18_STOREP', '0.2')) else False,
             'bad_source': r.random() < 0.03,
             'nsched': r.choice([12, 20, 30]) if tier == 'quick'
             else r.choice([30, 60, 100]),
